@@ -1,15 +1,15 @@
-(* Instantiation of TokIR/BulkSim.v on the REGENERATED html tokenizer table: the two decidable table conditions are
+(* Instantiation of TokIR/BulkSim.v on the REGENERATED html and xml tokenizer tables: the two decidable table conditions are
    decided here (they break deterministically when a bulk-read cell of the Rust source changes so that the fast path
    could differ from the character-at-a-time path: a set that no longer contains CR / LF / NUL or a character its
    per-character arm singles out, a per-character default arm that is not the run arm for one character, an arm that
    reconsumes without having read a character in the same step, an EOF arm that reads, SIMD sets that disagree). *)
 From Coq Require Import List NArith Bool Lia.
-From HV Require Import TokIR.IR TokIR.Interp TokIR.Checks TokIR.Chunk TokIR.QueueSim TokIR.ChunkExec TokIR.BulkSim Gen.GenHtmlTok Inst.InstChunk.
+From HV Require Import TokIR.IR TokIR.Interp TokIR.Checks TokIR.Chunk TokIR.QueueSim TokIR.ChunkExec TokIR.BulkSim Gen.GenHtmlTok Gen.GenXmlTok TokIR.ChunkInv Inst.InstChunk.
 From HV Require Import CharRef.CRModel Gen.GenEntities.
 Import ListNotations.
 Local Open Scope N_scope.
 
-Lemma html_step_ok_all : forall s, step_ok simd_first_guard simd_tail_stop simd_tail_newline hstate_beq (html_step s) = true.
+Lemma html_step_ok_all : forall s, step_ok html_flavour simd_first_guard simd_tail_stop simd_tail_newline hstate_beq (html_step s) = true.
 Proof. intros s. destruct s; try reflexivity; destruct k; try reflexivity; destruct k; reflexivity. Qed.
 Lemma html_eof_lockstep_all : forall s, ok_body false false (html_eof s) = true.
 Proof. intros s. destruct s; try reflexivity; destruct k; try reflexivity; destruct k; reflexivity. Qed.
@@ -29,7 +29,7 @@ Theorem html_bulk_flat_obs : forall ent c1 sk fuel inject chunks (m : mach hstat
 Proof.
   intros ent c1 sk.
   exact (bulk_flat_obs html_flavour html_table simd_first_guard simd_tail_stop simd_tail_newline ent c1 sk hstate_beq
-           hstate_beq_eq eq_refl html_step_ok_all html_eof_lockstep_all).
+           hstate_beq_eq html_step_ok_all html_eof_lockstep_all).
 Qed.
 
 (* the chunked queue (the interpreter that runs against the Rust tokenizer): runs up to the end of the first buffer, the
@@ -44,7 +44,7 @@ Theorem html_bulk_chunked_obs : forall ent c1 sk fuel inject chunks (m : mach hs
 Proof.
   intros ent c1 sk.
   exact (bulk_chunked_obs html_flavour html_table simd_first_guard simd_tail_stop simd_tail_newline ent c1 sk hstate_beq
-           hstate_beq_eq eq_refl html_step_ok_all html_eof_lockstep_all).
+           hstate_beq_eq html_step_ok_all html_eof_lockstep_all).
 Qed.
 
 (* ... and against the REFERENCE semantics (flat queue, unit reads, exact mode) *)
@@ -60,7 +60,7 @@ Theorem html_bulk_chunked_reference : forall ent c1 sk fuel inject chunks (m : m
 Proof.
   intros ent c1 sk.
   exact (bulk_chunked_reference html_flavour html_table simd_first_guard simd_tail_stop simd_tail_newline ent c1 sk hstate_beq
-           hstate_beq_eq eq_refl html_step_ok_all html_eof_lockstep_all).
+           hstate_beq_eq html_step_ok_all html_eof_lockstep_all).
 Qed.
 
 (* the statement in the shape of C03 / C08: one input, any start state, any sink script, any fuel.  If the run of the
@@ -128,6 +128,96 @@ Proof.
   split; [rewrite <- A12, <- A22, C1; reflexivity|exact C2].
 Qed.
 
+(* ================================================================ xml5ever
+   the same for the xml flavour: no SIMD scan (every bulk state has use_simd = false, so the SIMD sets are irrelevant),
+   LF need not stop a run (get_preprocessed_char does not count lines), NUL becomes U+FFFD on the slow path and is in
+   every bulk set, discard_char goes through get_char, EOF arms may emit tags and answer Script *)
+Lemma xml_step_ok_all : forall guard stop nl s, step_ok xml_flavour guard stop nl xstate_beq (xml_step s) = true.
+Proof. intros guard stop nl s. destruct s; try reflexivity; destruct k; reflexivity. Qed.
+Lemma xml_eof_lockstep_all : forall s, ok_body false false (xml_eof s) = true.
+Proof. intros s. destruct s; try reflexivity; destruct k; reflexivity. Qed.
+Lemma xstate_beq_eq a b : xstate_beq a b = true -> a = b.
+Proof. apply internal_xstate_dec_bl. Qed.
+
+Theorem xml_bulk_flat_obs : forall simd ent c1 sk fuel inject chunks (m : mach xstate (list N)) log,
+  let rf := drive_flat xml_flavour false xml_table simd ent c1 sk fuel inject chunks m log in
+  regular (snd rf) ->
+  exists k, forall j,
+    let rs := drive_flat xml_flavour true xml_table simd ent c1 sk (k + j) inject chunks m log in
+    snd rs = snd rf /\ obs (mout (fst rs)) = obs (mout (fst rf)) /\ ceq (mc (fst rs)) (mc (fst rf)) /\
+    mq (fst rs) = mq (fst rf) /\ mcons (fst rs) = mcons (fst rf).
+Proof.
+  intros [[guard stop] nl] ent c1 sk.
+  exact (bulk_flat_obs xml_flavour xml_table guard stop nl ent c1 sk xstate_beq xstate_beq_eq
+           (xml_step_ok_all guard stop nl) xml_eof_lockstep_all).
+Qed.
+Theorem xml_bulk_chunked_obs : forall simd ent c1 sk fuel inject chunks (m : mach xstate queue) log,
+  let rf := drive_chunked xml_flavour false xml_table simd ent c1 sk fuel inject chunks m log in
+  regular (snd rf) ->
+  exists k, forall j,
+    let rs := drive_chunked xml_flavour true xml_table simd ent c1 sk (k + j) inject chunks m log in
+    snd rs = snd rf /\ obs (mout (fst rs)) = obs (mout (fst rf)) /\ ceq (mc (fst rs)) (mc (fst rf)) /\
+    mq (fst rs) = mq (fst rf) /\ mcons (fst rs) = mcons (fst rf).
+Proof.
+  intros [[guard stop] nl] ent c1 sk.
+  exact (bulk_chunked_obs xml_flavour xml_table guard stop nl ent c1 sk xstate_beq xstate_beq_eq
+           (xml_step_ok_all guard stop nl) xml_eof_lockstep_all).
+Qed.
+Theorem xml_bulk_chunked_reference : forall simd ent c1 sk fuel inject chunks (m : mach xstate queue) log,
+  wfq (mq m) ->
+  let rf := drive_chunked xml_flavour false xml_table simd ent c1 sk fuel inject chunks m log in
+  regular (snd rf) ->
+  exists k, forall j,
+    let rs := drive_flat xml_flavour true xml_table simd ent c1 sk (k + j) inject chunks
+                (mkmach (mc m) (qflat (mq m)) (mout m) (mcons m)) log in
+    snd rs = snd rf /\ obs (mout (fst rs)) = obs (mout (fst rf)) /\ ceq (mc (fst rs)) (mc (fst rf)) /\
+    mq (fst rs) = qflat (mq (fst rf)) /\ mcons (fst rs) = mcons (fst rf).
+Proof.
+  intros [[guard stop] nl] ent c1 sk.
+  exact (bulk_chunked_reference xml_flavour xml_table guard stop nl ent c1 sk xstate_beq xstate_beq_eq
+           (xml_step_ok_all guard stop nl) xml_eof_lockstep_all).
+Qed.
+Theorem xml_default_mode_is_reference_up_to_obs : forall simd ent c1 sk inject s0 last input fuel,
+  let fast := drive_chunked xml_flavour false xml_table simd ent c1 sk fuel inject [input]
+                (mkmach (init_cfg s0 last false) [] [] 0) [] in
+  regular (snd fast) ->
+  exists fuel0, forall fuel', (fuel0 <= fuel')%nat ->
+    let ref := drive_flat xml_flavour true xml_table simd ent c1 sk fuel' inject [input]
+                 (mkmach (init_cfg s0 last false) [] [] 0) [] in
+    obs (mout (fst fast)) = obs (mout (fst ref)) /\ snd fast = snd ref.
+Proof.
+  intros simd ent c1 sk inject s0 last input fuel fast Hreg.
+  destruct (xml_bulk_chunked_reference simd ent c1 sk fuel inject [input] (mkmach (init_cfg s0 last false) [] [] 0) []
+              (Forall_nil _) Hreg) as (k & A).
+  exists k. intros fuel' Hle. specialize (A (fuel' - k)%nat). cbv zeta in A.
+  replace (k + (fuel' - k))%nat with fuel' in A by lia. destruct A as (A1 & A2 & _).
+  cbv zeta. split; symmetry; assumption.
+Qed.
+Theorem xml_default_mode_chunking_independent_obs : forall simd ent c1 sk fuel1 fuel2 inj cs1 cs2 (m : mach xstate queue),
+  wfq (mq m) -> J xml_table (mkmach (mc m) (qflat (mq m)) (mout m) (mcons m)) -> discard_bom (mc m) = false ->
+  all_nonempty cs1 -> all_nonempty cs2 -> cs1 <> [] -> cs2 <> [] -> concat cs1 = concat cs2 ->
+  let f1 := drive_chunked xml_flavour false xml_table simd ent c1 sk fuel1 inj cs1 m [] in
+  let f2 := drive_chunked xml_flavour false xml_table simd ent c1 sk fuel2 inj cs2 m [] in
+  regular (snd f1) -> regular (snd f2) -> all_done (tl (snd f1)) -> all_done (tl (snd f2)) ->
+  obs (mout (fst f1)) = obs (mout (fst f2)) /\ hd SSuspend (snd f1) = hd SSuspend (snd f2).
+Proof.
+  intros simd ent c1 sk fuel1 fuel2 inj cs1 cs2 m Hw HJ HB N1 N2 E1 E2 EC f1 f2 R1 R2 D1 D2.
+  destruct (xml_bulk_chunked_reference simd ent c1 sk fuel1 inj cs1 m [] Hw R1) as (k1 & A1).
+  destruct (xml_bulk_chunked_reference simd ent c1 sk fuel2 inj cs2 m [] Hw R2) as (k2 & A2).
+  specialize (A1 k2). specialize (A2 k1). cbv zeta in A1, A2. fold f1 in A1. fold f2 in A2.
+  replace (k2 + k1)%nat with (k1 + k2)%nat in A2 by lia.
+  pose proof (xml_drive_chunking_independent simd ent c1 sk (k1 + k2) inj cs1 cs2
+                (mkmach (mc m) (qflat (mq m)) (mout m) (mcons m)) HJ HB N1 N2 E1 E2 EC) as CI.
+  set (r1 := drive_flat xml_flavour true xml_table simd ent c1 sk (k1 + k2) inj cs1
+               (mkmach (mc m) (qflat (mq m)) (mout m) (mcons m)) []) in *.
+  set (r2 := drive_flat xml_flavour true xml_table simd ent c1 sk (k1 + k2) inj cs2
+               (mkmach (mc m) (qflat (mq m)) (mout m) (mcons m)) []) in *.
+  clearbody r1 r2 f1 f2.
+  destruct A1 as (A11 & A12 & _). destruct A2 as (A21 & A22 & _).
+  rewrite A11, A21 in CI. destruct (CI D1 D2) as [C1 C2].
+  split; [rewrite <- A12, <- A22, C1; reflexivity|exact C2].
+Qed.
+
 (* ---------------------------------------------------------------- non-vacuity: a concrete document (a test, by computation)
    ab LF cd <p t='x NUL y&amp;z' u=v QUOT w> e&lt;f NUL g U+0001 h </p>      (QUOT = U+0022)
    text runs with a line feed (SIMD scan), a quoted attribute value with NUL and a character reference, an unquoted value
@@ -153,4 +243,23 @@ Lemma ex_bulk_obs :
      (TTag TStartTag [112] false [([116], [120; 65533; 121; 38; 122]); ([117], [118; 34; 119])] false, 2, 28);
      (TChars [101; 60; 102], 2, 34); (TNull, 2, 35); (TChars [103; 1; 104], 2, 38);
      (TTag TEndTag [112] false [] false, 2, 42); (TEof, 2, 42)].
+Proof. vm_compute. repeat split; reflexivity. Qed.
+
+(* xml: x LF y <a b='p NUL q&amp;r' c="s"> t NUL u U+0001 v &lt; </a>   - the slow path turns NUL into U+FFFD before the arms
+   see it, in text and in attribute values alike; LF does not stop the data run *)
+Definition xex_input : list N :=
+  [120;10;121;60;97;32;98;61;39;112;0;113;38;97;109;112;59;114;39;32;99;61;34;115;34;62;116;0;117;1;118;38;108;116;59;60;47;97;62].
+Definition xex_fast := drive_chunked xml_flavour false xml_table ([], [], []) (alookup entities) (fun _ => None) ex_sk 400 []
+                         [xex_input] (mkmach (init_cfg XData None false) [] [] 0) [].
+Definition xex_ref := drive_flat xml_flavour true xml_table ([], [], []) (alookup entities) (fun _ => None) ex_sk 400 []
+                        [xex_input] (mkmach (init_cfg XData None false) [] [] 0) [].
+Lemma xex_bulk_obs :
+  regular_b (snd xex_fast) = true /\ snd xex_fast = snd xex_ref /\
+  obs (mout (fst xex_fast)) = obs (mout (fst xex_ref)) /\
+  (length (mout (fst xex_fast)), length (mout (fst xex_ref)), length (obs (mout (fst xex_ref)))) = (8, 13, 5)%nat /\
+  (length (filter is_error (mout (fst xex_fast))), length (filter is_error (mout (fst xex_ref)))) = (0, 1)%nat /\
+  rev (obs (mout (fst xex_ref))) =
+    [(TChars [120; 10; 121], 1, 3);
+     (TTag TStartTag [97] false [([98], [112; 65533; 113; 38; 114]); ([99], [115])] false, 1, 26);
+     (TChars [116; 65533; 117; 1; 118; 60], 1, 35); (TTag TEndTag [97] false [] false, 1, 39); (TEof, 1, 39)].
 Proof. vm_compute. repeat split; reflexivity. Qed.
